@@ -54,8 +54,12 @@ def file_runs(chk, triples, n):
                 return {c.get("id"): c.get("cell_type") for c in nb.get("cells", []) if c.get("id") is not None}
             bt = types(b)
             changed = any(k in bt and bt[k] != v for side in (l, r) for k, v in types(side).items())
+            def tagset(nb):
+                return {t for c in nb.get("cells", []) for t in (c.get("metadata", {}).get("tags") or []) if isinstance(t, str)}
             sig = ("merged-invalid:additional-properties:celltype-changed-on-one-side"
                    if errs[0].startswith("Additional properties are not allowed") and changed
+                   else "merged-invalid:duplicate-tag:same-tag-added-on-both-sides"
+                   if "has non-unique elements" in errs[0] and (tagset(l) & tagset(r)) - tagset(b)
                    else "nbmerge-file-invalid:%s" % _msg_class(errs[0]))
             chk.violation(sig,
                           "file written by nbmerge --out fails the schema of its declared minor: %s" % errs[0],
@@ -105,6 +109,22 @@ def _celltype_changed(ev):
     return False
 
 
+def _tag_added_on_both_sides(ev):
+    """is there a cell tag absent from the base notebook that local and remote both introduce?"""
+    from .c02 import safe_dec
+
+    def tags(nb):
+        out = set()
+        try:
+            for c in safe_dec(nb)["cells"]:
+                t = c.get("metadata", {}).get("tags", [])
+                out |= {x for x in t if isinstance(x, str)} if isinstance(t, list) else set()
+        except Exception:
+            pass
+        return out
+    return bool((tags(ev["local"]) & tags(ev["remote"])) - tags(ev["base"]))
+
+
 def classify_valid(chk, ev, run_, clauses, info):
     if "UniqueCellIds" in clauses:
         strat = run_["name"].split("|")[1]
@@ -119,6 +139,10 @@ def classify_valid(chk, ev, run_, clauses, info):
     if msg.startswith("Additional properties are not allowed") and _celltype_changed(ev):
         chk.violation("merged-invalid:additional-properties:celltype-changed-on-one-side",
                       "merged cell mixes keys of two cell types (strategy %s): %s" % (strat, msg), rep)
+        return
+    if "has non-unique elements" in msg and _tag_added_on_both_sides(ev):
+        chk.violation("merged-invalid:duplicate-tag:same-tag-added-on-both-sides",
+                      "merged cell lists a tag twice (strategy %s): %s" % (strat, msg), rep)
         return
     chk.violation("merged-invalid:%s:%s" % (_msg_class(msg), _era(ev)),
                   "merged notebook fails the schema of its declared minor (strategy %s): %s"
